@@ -12,9 +12,9 @@
           (kind=spec), and order-independence / exact-once / reachability are also evaluated on the real
           outputs (kind=oracle).
 
-  One clause is FALSE of the command-line tool (finding F14): `generate_ui` stops at the first rejected
-  source, so the presence of an accepted source's `.ui` depends on the argument order.  It is refuted below
-  by a concrete witness; what does hold is stated as `…_partial`.
+  The command-line loop of `generate_ui` is modelled as `cliRun`; `cli_outputs_order_independent` proves the
+  clause for it.  (Finding F15 — the loop stopped at the first rejected source — was repaired in /repo
+  73d3cab; the pre-repair loop and its witness are kept as `cliRunFailFast` / `f15_fail_fast_witness`.)
 
   All theorems quantify over every tree (any import and root-type relation, cycles included), every source
   list and — where it matters — every permutation of it.
@@ -279,52 +279,109 @@ theorem instances_accept_base_properties (env : Env) (t : Tree) (look : Path →
                   exact ⟨k + 1, q, .step hq hk⟩
         exact this _ _ _ _ hb hw'
 
-/-! ### the command line: one clause is FALSE of the code (finding F14)
+/-! ### the command line
 
-  The in-process results above are order independent, but `generate_ui` stops at the first rejected source
-  (`generate_ui_file(..)?` inside the loop), so whether the `.ui` of an accepted source is written depends
-  on whether a rejected source is named before it. -/
+  `generate_ui` translates every source, remembers whether one was rejected, and fails at the end (only an
+  I/O-level error — `CommandError::Other` — still ends the run at once; such errors are outside the model's
+  file system, hence the hypothesis `noFatal`).  So what is written for a source, and the exit status, do not
+  depend on the order of the arguments.  Before the repair of finding F15 (commit 73d3cab in /repo) the loop
+  stopped at the first rejected source; that loop is kept as `cliRunFailFast` with its kernel-checked
+  witness. -/
 
-/-- The full statement: which sources get their output written does not depend on the argument order. -/
-def cli_outputs_order_independent_full_statement : Prop :=
-  ∀ (srcs srcs' : List (String × Bool)), srcs.Perm srcs' → ∀ n, n ∈ (cliRun srcs).1 ↔ n ∈ (cliRun srcs').1
+def noFatal (srcs : List (String × SrcOutcome)) : Prop := ∀ s ∈ srcs, s.2 ≠ .fatal
 
-/-- F14: refuted by `Bad.qml Good.qml` (nothing written) against `Good.qml Bad.qml` (`good.ui` written);
-    replayed on the real binary by `corpus/C18/cli_fail_fast.c18.req`. -/
-theorem cli_outputs_order_independent_refuted : ¬ cli_outputs_order_independent_full_statement := by
+instance (srcs : List (String × SrcOutcome)) : Decidable (noFatal srcs) :=
+  inferInstanceAs (Decidable (∀ s ∈ srcs, s.2 ≠ .fatal))
+
+theorem cliLoop_written (l : List (String × SrcOutcome)) (h : noFatal l) (diag : Bool) :
+    (cliLoop diag l).1 = (l.filter fun s => s.2 = .accepted).map (·.1) := by
+  induction l generalizing diag with
+  | nil => rfl
+  | cons x xs ih =>
+    obtain ⟨n, o⟩ := x
+    have hxs : noFatal xs := fun s hs => h s (List.mem_cons_of_mem _ hs)
+    cases o with
+    | accepted => simp [cliLoop, ih hxs]
+    | rejected => simp [cliLoop, ih hxs]
+    | fatal => exact absurd rfl (h (n, .fatal) List.mem_cons_self)
+
+theorem cliLoop_status (l : List (String × SrcOutcome)) (h : noFatal l) (diag : Bool) :
+    (cliLoop diag l).2 = if diag || l.any (fun s => s.2 = .rejected) then .diagnosticGenerated else .success := by
+  induction l generalizing diag with
+  | nil => cases diag <;> rfl
+  | cons x xs ih =>
+    obtain ⟨n, o⟩ := x
+    have hxs : noFatal xs := fun s hs => h s (List.mem_cons_of_mem _ hs)
+    cases o with
+    | accepted =>
+      have : (cliLoop diag ((n, .accepted) :: xs)).2 = (cliLoop diag xs).2 := rfl
+      have e : ((n, SrcOutcome.accepted) :: xs).any (fun s => decide (s.2 = .rejected))
+          = xs.any (fun s => decide (s.2 = .rejected)) := by
+        rw [List.any_cons]; rfl
+      rw [this, ih hxs, e]
+    | rejected =>
+      have : (cliLoop diag ((n, .rejected) :: xs)).2 = (cliLoop true xs).2 := rfl
+      have e : ((n, SrcOutcome.rejected) :: xs).any (fun s => decide (s.2 = .rejected)) = true := by
+        rw [List.any_cons]; rfl
+      rw [this, ih hxs, e]; simp
+    | fatal => exact absurd rfl (h (n, .fatal) List.mem_cons_self)
+
+/-- The outputs of exactly the accepted sources are written — whatever else is on the command line. -/
+theorem cli_written_iff_accepted (srcs : List (String × SrcOutcome)) (h : noFatal srcs) (n : String) :
+    n ∈ (cliRun srcs).1 ↔ (n, SrcOutcome.accepted) ∈ srcs := by
+  unfold cliRun
+  rw [cliLoop_written srcs h]
+  simp only [List.mem_map, List.mem_filter, decide_eq_true_eq]
+  constructor
+  · rintro ⟨⟨m, o⟩, ⟨hm, ho⟩, rfl⟩
+    simp only at ho; subst ho; exact hm
+  · intro hm; exact ⟨(n, .accepted), ⟨hm, rfl⟩, rfl⟩
+
+/-- The command succeeds iff no source is rejected. -/
+theorem cli_status (srcs : List (String × SrcOutcome)) (h : noFatal srcs) :
+    (cliRun srcs).2 = if srcs.any (fun s => s.2 = .rejected) then .diagnosticGenerated else .success := by
+  unfold cliRun
+  rw [cliLoop_status srcs h]
+  simp only [Bool.false_or]
+
+/-- **The outputs written and the exit status do not depend on the order of the source arguments**
+    (the clause refuted before the repair of F15): for any permutation of the sources the written outputs
+    are a permutation of each other — in particular a source's output is written in one order iff it is
+    written in the other — and the command ends the same way. -/
+theorem cli_outputs_order_independent (srcs srcs' : List (String × SrcOutcome)) (hp : srcs.Perm srcs')
+    (h : noFatal srcs) :
+    (cliRun srcs).1.Perm (cliRun srcs').1 ∧ (∀ n, n ∈ (cliRun srcs).1 ↔ n ∈ (cliRun srcs').1) ∧
+      (cliRun srcs).2 = (cliRun srcs').2 := by
+  have h' : noFatal srcs' := fun s hs => h s (hp.mem_iff.2 hs)
+  have hperm : (cliRun srcs).1.Perm (cliRun srcs').1 := by
+    unfold cliRun
+    rw [cliLoop_written srcs h, cliLoop_written srcs' h']
+    exact (hp.filter _).map _
+  refine ⟨hperm, fun n => hperm.mem_iff, ?_⟩
+  rw [cli_status srcs h, cli_status srcs' h']
+  have : srcs.any (fun s => s.2 = .rejected) = srcs'.any (fun s => s.2 = .rejected) := by
+    rw [Bool.eq_iff_iff, List.any_eq_true, List.any_eq_true]
+    exact ⟨fun ⟨x, hx, hr⟩ => ⟨x, hp.mem_iff.1 hx, hr⟩, fun ⟨x, hx, hr⟩ => ⟨x, hp.mem_iff.2 hx, hr⟩⟩
+  rw [this]
+
+/-- The pre-repair behaviour (fail-fast loop) was order dependent: the F15 witness.
+    `Bad.qml Good.qml` wrote nothing, `Good.qml Bad.qml` wrote `good.ui`; the repaired loop writes it in
+    both orders.  Replayed on the real binary by `corpus/C18/cli_fail_fast.c18.req`. -/
+theorem f15_fail_fast_witness :
+    cliRunFailFast [("Bad", .rejected), ("Good", .accepted)] = ([], .diagnosticGenerated) ∧
+    cliRunFailFast [("Good", .accepted), ("Bad", .rejected)] = (["Good"], .diagnosticGenerated) ∧
+    cliRun [("Bad", .rejected), ("Good", .accepted)] = (["Good"], .diagnosticGenerated) ∧
+    cliRun [("Good", .accepted), ("Bad", .rejected)] = (["Good"], .diagnosticGenerated) := by decide
+
+/-- … so the statement proved above for `cliRun` is false of the pre-repair loop. -/
+theorem f15_fail_fast_order_dependent :
+    ¬ ∀ (srcs srcs' : List (String × SrcOutcome)), srcs.Perm srcs' → noFatal srcs →
+        ∀ n, n ∈ (cliRunFailFast srcs).1 ↔ n ∈ (cliRunFailFast srcs').1 := by
   intro h
-  have := h [("Bad", false), ("Good", true)] [("Good", true), ("Bad", false)] (List.Perm.swap _ _ _) "Good"
+  have := h [("Bad", .rejected), ("Good", .accepted)] [("Good", .accepted), ("Bad", .rejected)]
+    (List.Perm.swap _ _ _) (by decide) "Good"
   revert this
   decide
-
-theorem cliRun_status (l : List (String × Bool)) : (cliRun l).2 = l.all (·.2) := by
-  induction l with
-  | nil => rfl
-  | cons x xs ih =>
-    obtain ⟨n, b⟩ := x
-    cases b <;> simp [cliRun, ih]
-
-theorem cliRun_written_of_all (l : List (String × Bool)) (h : ∀ s ∈ l, s.2 = true) : (cliRun l).1 = l.map (·.1) := by
-  induction l with
-  | nil => rfl
-  | cons x xs ih =>
-    obtain ⟨n, b⟩ := x
-    have hb : b = true := h (n, b) List.mem_cons_self
-    subst hb
-    simp [cliRun, ih (fun s hs => h s (List.mem_cons_of_mem _ hs))]
-
-/-- What does hold (1): the exit status is order independent — success iff every source is accepted. -/
-theorem cli_exit_status_order_independent_partial (srcs srcs' : List (String × Bool)) (hp : srcs.Perm srcs') :
-    (cliRun srcs).2 = (cliRun srcs').2 := by
-  rw [cliRun_status, cliRun_status, Bool.eq_iff_iff, List.all_eq_true, List.all_eq_true]
-  exact ⟨fun h x hx => h x (hp.mem_iff.2 hx), fun h x hx => h x (hp.mem_iff.1 hx)⟩
-
-/-- What does hold (2): if every source is accepted, every output is written, in any order. -/
-theorem cli_outputs_order_independent_partial (srcs srcs' : List (String × Bool)) (hp : srcs.Perm srcs')
-    (hall : ∀ s ∈ srcs, s.2 = true) (n : String) : n ∈ (cliRun srcs).1 ↔ n ∈ (cliRun srcs').1 := by
-  rw [cliRun_written_of_all srcs hall, cliRun_written_of_all srcs' (fun s hs => hall s (hp.mem_iff.2 hs))]
-  simp only [List.mem_map]
-  exact ⟨fun ⟨x, hx, h⟩ => ⟨x, hp.mem_iff.1 hx, h⟩, fun ⟨x, hx, h⟩ => ⟨x, hp.mem_iff.2 hx, h⟩⟩
 
 /-! ### non-vacuity: mutually importing directories, mutually and self-inheriting components -/
 
@@ -394,6 +451,13 @@ example : okOut = some
       customs := [{ cls := "Form", ext := "QDialog", header := "form.h" }] } := by decide +kernel
 example : mainOut.map (·.widgets.take 2) = some
     [{ cls := "QWidget", props := [] }, { cls := "Form", props := ["sizeGripEnabled"] }] := by decide +kernel
+
+-- the command line: a rejected source between accepted ones; an I/O error ends the run
+example : cliRun [("A", .accepted), ("Bad", .rejected), ("B", .accepted)] = (["A", "B"], .diagnosticGenerated) := by decide
+example : cliRun [("B", .accepted), ("A", .accepted)] = (["B", "A"], .success) := by decide
+example : cliRun [("A", .accepted), ("Io", .fatal), ("B", .accepted)] = (["A"], .otherError) := by decide
+example : noFatal [("A", .accepted), ("Bad", .rejected), ("B", .accepted)] := by decide
+example : uiFileName "MainDialog" = "maindialog.ui" := by decide +kernel
 
 end Examples
 
